@@ -290,9 +290,30 @@ extern "C" fn h_probe_slot_body(r1: u64, doff: u64, eoff: u64, tag: u64, _e: u64
     clobber_scratch();
     0
 }
-extern "C" fn h_probe_stack_body(p: u64, tag: u64, _c: u64, _d: u64, _e: u64) -> u64 {
+/// third argument of the stack probe helper: "run another eBPF program before you return"
+pub const REENTER: u64 = 0x5245;
+
+extern "C" fn h_probe_stack_body(p: u64, tag: u64, c: u64, _d: u64, _e: u64) -> u64 {
     let v = unsafe { (p as *const u64).read_unaligned() };
     tls(|t| t.probe_stack = Some((v, tag)));
+    if c == REENTER {
+        // A helper may itself run eBPF programs (rbpf's own documentation suggests helpers that do
+        // real work): a second VM executes, under the interpreter, a program that stores to every
+        // eighth slot of *its* stack while the calling program is suspended in this call.
+        static PROG: std::sync::OnceLock<Vec<u8>> = std::sync::OnceLock::new();
+        let prog = PROG.get_or_init(|| {
+            let mut v = Vec::new();
+            for k in 1..=64i16 {
+                v.extend_from_slice(&crate::progs::ins(crate::progs::STDW_IMM, 10, 0, -8 * k, 0x7e7e_7e7e));
+            }
+            v.extend_from_slice(&crate::progs::ins(crate::progs::MOV64_IMM, 0, 0, 0, 0));
+            v.extend_from_slice(&crate::progs::ins(crate::progs::EXIT, 0, 0, 0, 0));
+            v
+        });
+        if let Ok(vm) = rbpf::EbpfVmNoData::new(Some(prog)) {
+            let _ = vm.execute_program();
+        }
+    }
     clobber_scratch();
     0
 }
